@@ -1,0 +1,52 @@
+//go:build verif
+
+// Verification hook for property C14 (variable precedence), include roles. Add-only; compiled
+// only with -tags verif. Nothing here changes the behaviour of the package.
+package workflow
+
+import (
+	"errors"
+
+	"github.com/AliceO2Group/Control/core/repos"
+	"gopkg.in/yaml.v3"
+)
+
+// VerifC14LoadYAMLInc is VerifC14LoadYAML with a loadSubworkflow function: the closure of Load
+// with the repository manager and the file access replaced by subs (sub-workflow documents keyed
+// by the include expression as written in the template). onInclude, when set, is called with the
+// include role at the moment its sub-workflow is requested, i.e. after the include role's own
+// templates were processed and before the loaded root takes its place.
+func VerifC14LoadYAMLInc(doc []byte, subs map[string][]byte, parent Updatable, repo repos.IRepo,
+	baseConfigStack map[string]string, onInclude func(inc Role)) (Role, error) {
+	parse := func(yamlDoc []byte, parent Updatable) (*aggregatorRole, error) {
+		root := new(aggregatorRole)
+		root.parent = parent
+		if err := yaml.Unmarshal(yamlDoc, root); err != nil {
+			return nil, err
+		}
+		if parent != nil {
+			root.setParent(parent)
+		}
+		return root, nil
+	}
+	var loadSubworkflow LoadSubworkflowFunc = func(workflowPathExpr string, parent Updatable) (*aggregatorRole, repos.IRepo, error) {
+		for k, v := range subs {
+			if k == workflowPathExpr || repo.ResolveSubworkflowTemplateIdentifier(k) == workflowPathExpr {
+				if inc, ok := parent.(Role); ok && onInclude != nil {
+					onInclude(inc)
+				}
+				root, err := parse(v, parent)
+				return root, repo, err
+			}
+		}
+		return nil, nil, errors.New("verif: unknown subworkflow " + workflowPathExpr)
+	}
+	root, err := parse(doc, parent)
+	if err != nil {
+		return nil, err
+	}
+	if err = root.ProcessTemplates(repo, loadSubworkflow, baseConfigStack); err != nil {
+		return nil, err
+	}
+	return root, nil
+}
